@@ -13,7 +13,7 @@ macro_rules! rem_twins {
             // fixed % fixed and rem_euclid (bit-level, layout independent)
             #[cfg(kani)]
             #[kani::proof]
-            fn rem_forms() {
+            pub fn rem_forms() {
                 let (a, b): ($T, $T) = (kani::any(), kani::any());
                 let (x, y) = (Fx::from_bits(a), Fx::from_bits(b));
                 if b == 0 {
@@ -31,7 +31,7 @@ macro_rules! rem_twins {
             // remainder by a primitive integer n: the divisor is n * 2^f as an unbounded integer
             #[cfg(kani)]
             #[kani::proof]
-            fn rem_int_forms() {
+            pub fn rem_int_forms() {
                 let (a, n): ($T, $T) = (kani::any(), kani::any());
                 let x = Fx::from_bits(a);
                 if n == 0 {
@@ -55,7 +55,7 @@ macro_rules! rem_twins {
             // Euclidean quotient q = (a - rem_euclid(a, b)) / b, an integer, i.e. q * 2^f in bits
             #[cfg(kani)]
             #[kani::proof]
-            fn div_euclid_forms() {
+            pub fn div_euclid_forms() {
                 let (a, b): ($T, $T) = (kani::any(), kani::any());
                 let (x, y) = (Fx::from_bits(a), Fx::from_bits(b));
                 if b == 0 {
@@ -82,7 +82,7 @@ macro_rules! rem_twins {
             }
             #[cfg(kani)]
             #[kani::proof]
-            fn div_euclid_int_forms() {
+            pub fn div_euclid_int_forms() {
                 let (a, n): ($T, $T) = (kani::any(), kani::any());
                 let x = Fx::from_bits(a);
                 if n == 0 {
@@ -120,7 +120,7 @@ rem_twins!(u1f7, FixedU8, u8, false, U7, 7);
 // for the region: if this cover ever becomes unsatisfiable the finding is gone and the carve-out must go too)
 #[cfg(kani)]
 #[kani::proof]
-fn div_euclid_region_reachable() {
+pub fn div_euclid_region_reachable() {
     let (a, b): (i8, i8) = (kani::any(), kani::any());
     kani::assume(b != 0);
     let (x, y) = (FixedI8::<U4>::from_bits(a), FixedI8::<U4>::from_bits(b));
